@@ -124,6 +124,12 @@ def _argmin(a, axis=None, out=None, **kw):
 
 def _argext1(vals, is_max):
     """first-occurrence argmax/argmin; forks on the comparisons (concrete index per path)."""
+    if vals and all(isinstance(v, (SB, bool, np.bool_)) for v in vals):
+        # boolean array: argmax = first True, argmin = first False (0 when there is none)
+        for i, v in enumerate(vals):
+            if bool(v) == is_max:
+                return i
+        return 0
     best = 0
     for i in range(1, len(vals)):
         c = (vals[i] > vals[best]) if is_max else (vals[i] < vals[best])
